@@ -53,9 +53,10 @@ structure Conn where
   bufs : List (Nat × List Chunk)     -- stream_buffers (dict order); no entry is empty
   trl : List Nat                      -- keys of stream_trailers
   out : List Frame
+  dead : Bool                         -- GOAWAY received: h2's connection state machine is CLOSED
 deriving Repr
 
-def Conn.init : Conn := ⟨65535, 16384, 65535, [], [], [], []⟩
+def Conn.init : Conn := ⟨65535, 16384, 65535, [], [], [], [], false⟩
 
 def alookup {α : Type} (k : Nat) : List (Nat × α) → Option α
   | [] => none
@@ -71,10 +72,10 @@ def Conn.getS (c : Conn) (sid : Nat) : Option Stream := alookup sid c.streams
 def Conn.buf (c : Conn) (sid : Nat) : List Chunk := (alookup sid c.bufs).getD []
 
 def Conn.liveS (c : Conn) (sid : Nat) : Bool :=
-  match c.getS sid with | some s => s.live | none => false
+  !c.dead && (match c.getS sid with | some s => s.live | none => false)
 /-- `is_closed` -/
 def Conn.closedS (c : Conn) (sid : Nat) : Bool :=
-  match c.getS sid with | some s => s.closed | none => true
+  c.dead || (match c.getS sid with | some s => s.closed | none => true)
 /-- `open_outbound_streams` -/
 def Conn.openCount (c : Conn) : Nat := (c.streams.filter (fun p => !p.2.closed)).length
 
@@ -212,6 +213,7 @@ def Conn.absorbH2 (c : Conn) : SEv → Conn
   | .respData sid _ fin => if fin then c.updS sid fun s => { s with remoteOpen := false } else c
   | .respTrailers sid => c.updS sid fun s => { s with remoteOpen := false }
   | .reset sid => c.updS sid fun s => { s with rst := true }
+  | .goaway => { c with dead := true }
   | _ => c
 
 /-- the post-processing loop of `BufferedH2Connection.receive_data`, event by event -/
